@@ -500,13 +500,15 @@ fn wrappers(run: &mut Run) -> u64 {
 }
 
 pub fn run(run: &mut Run) {
-    let depth = if run.quick() { 2 } else { 3 };
+    let depth = 3;
     let mut ts = trees(depth);
-    if !run.quick() {
+    {
         // depth 3 is large: keep every tree up to depth 2 and a deterministic stride of depth-3 trees
         let d2 = trees(2);
-        let extra: Vec<T> = ts.iter().filter(|t| !d2.contains(t)).cloned().collect();
-        let stride = (extra.len() / 30_000).max(1);
+        let d2set: std::collections::HashSet<String> = d2.iter().map(|t| format!("{t:?}")).collect();
+        let extra: Vec<T> = ts.iter().filter(|t| !d2set.contains(&format!("{t:?}"))).cloned().collect();
+        let want = if run.quick() { 6_000 } else { 400_000 };
+        let stride = (extra.len() / want).max(1);
         run.bound("depth3_stride", json!(stride));
         if stride > 1 {
             run.cap_hit(format!("depth-3 trees: every {stride}-th of {} explored; depth <= 2 complete", extra.len()));
@@ -514,16 +516,13 @@ pub fn run(run: &mut Run) {
         ts = d2;
         ts.extend(extra.into_iter().step_by(stride));
     }
-    let mut total_plans = 0u64;
-    let mut nontrivial = 0u64;
-    let mut viols: Vec<(String, String, Value)> = vec![];
-    // Rc-based probes are not Send: run on this thread (the space is small)
-    for t in &ts {
+    // every tree builds its own probes (Rc-based, thread-local by construction): trees are sharded over the cores
+    let per_tree = mcx::par_map(ts.len(), |i| {
+        let t = &ts[i];
+        let mut plans_run = 0u64;
+        let mut viols: Vec<(String, String, Value)> = vec![];
         let (v, calls) = check_tree(t, &[]);
-        total_plans += 1;
-        if calls > 1 {
-            nontrivial += 1;
-        }
+        plans_run += 1;
         let mut plans: Vec<Vec<usize>> = (1..=calls).map(|j| vec![j]).collect();
         if calls <= 12 {
             for j in 1..=calls {
@@ -536,11 +535,26 @@ pub fn run(run: &mut Run) {
             viols.push((k, w, json!({"check":"C14","scenario":"tree","tree":format!("{t:?}"),"fail_at":[]})));
         }
         for p in plans {
-            total_plans += 1;
+            plans_run += 1;
             if let (Some((k, w)), _) = check_tree(t, &p) {
-                if viols.len() < 100 {
+                if viols.len() < 5 {
                     viols.push((k, w, json!({"check":"C14","scenario":"tree","tree":format!("{t:?}"),"fail_at":p})));
                 }
+            }
+        }
+        (plans_run, calls > 1, viols)
+    });
+    let mut total_plans = 0u64;
+    let mut nontrivial = 0u64;
+    let mut viols: Vec<(String, String, Value)> = vec![];
+    for (p, nt, v) in per_tree {
+        total_plans += p;
+        if nt {
+            nontrivial += 1;
+        }
+        for x in v {
+            if viols.len() < 200 {
+                viols.push(x);
             }
         }
     }
